@@ -248,4 +248,216 @@ theorem good_importScript {d : Disk} {m : Mem} (hg : Good d m) (hw : DiskWF d) (
         exact good_import_tail hg hw sc (.scr kind sid) row _ rfl hrow' rfl rfl
           (existsAddr_false (by simpa using hex))
 
+/-! ### accounts -/
+
+theorem acctAns_ok_row {d : Disk} {sc a : Nat} {row : AcctRow} (h : acctAns d sc a = .ok row) :
+    aget (d.scopes sc).accts a = some row ∧ a ≠ IMPORTED := by
+  unfold acctAns at h
+  cases hr : aget (d.scopes sc).accts a with
+  | none => simp [hr] at h
+  | some r =>
+    simp only [hr] at h
+    by_cases hi : a = IMPORTED
+    · simp [hi] at h
+    · simp only [hi, if_false] at h; cases h; exact ⟨rfl, hi⟩
+
+/-- replacing / adding the account row of account `acct` in scope `sc` -/
+theorem acctAns_setRow (d : Disk) (sc acct : Nat) (row : AcctRow) (g : ScopeDisk → ScopeDisk)
+    (hg : ∀ s, (g s).accts = aset s.accts acct row) (sc' a : Nat) :
+    acctAns (d.updScope sc g) sc' a =
+      if sc' = sc ∧ a = acct then (if a = IMPORTED then .error .crypto else .ok row) else acctAns d sc' a := by
+  unfold acctAns
+  rw [updScope_scopes]
+  by_cases hsc : sc' = sc
+  · subst hsc
+    simp only [if_true, hg, true_and]
+    by_cases ha : a = acct
+    · subst ha; simp [aget_aset_self]
+    · simp [ha, aget_aset_ne _ _ _ _ ha]
+  · simp [hsc]
+
+theorem good_newAccount {d : Disk} {m : Mem} (hg : Good d m) (hw : DiskWF d) (sc : Nat) (name : String) (wo : Bool) :
+    Good (newAccount d m sc name wo).1 m ∧ DiskWF (newAccount d m sc name wo).1 := by
+  unfold newAccount
+  split
+  · exact ⟨hg, hw⟩
+  · split
+    · exact ⟨hg, hw⟩
+    · dsimp only
+      split
+      · exact ⟨hg, hw⟩
+      · split
+        · exact ⟨hg, hw⟩
+        · -- the new row
+          generalize hacct : (d.scopes sc).lastAcct + 1 = acct
+          have hrow := acctAns_setRow d sc acct ⟨name, wo, !wo, 0, 0⟩
+            (fun s => { s with accts := aset s.accts acct ⟨name, wo, !wo, 0, 0⟩, lastAcct := acct }) (fun _ => rfl)
+          have hadr : ∀ sc', ((d.updScope sc fun s => { s with accts := aset s.accts acct ⟨name, wo, !wo, 0, 0⟩, lastAcct := acct }).scopes sc').addrs
+              = (d.scopes sc').addrs := by intro sc'; rw [updScope_scopes]; split <;> simp_all
+          -- an account that has a row is not the new number
+          have hold : ∀ sc' a r, acctAns d sc' a = .ok r → ¬ (sc' = sc ∧ a = acct) := by
+            intro sc' a r hr ⟨h1, h2⟩
+            subst h1
+            obtain ⟨h3, h4⟩ := acctAns_ok_row hr
+            rcases hw.accts sc' a r h3 with h5 | h5
+            · omega
+            · exact h4 h5
+          have hkeep : ∀ sc' a r, acctAns d sc' a = .ok r →
+              acctAns (d.updScope sc fun s => { s with accts := aset s.accts acct ⟨name, wo, !wo, 0, 0⟩, lastAcct := acct }) sc' a = .ok r := by
+            intro sc' a r hr; rw [hrow, if_neg (hold sc' a r hr)]; exact hr
+          have hdp : ∀ sc' a r,
+              acctAns (d.updScope sc fun s => { s with accts := aset s.accts acct ⟨name, wo, !wo, 0, 0⟩, lastAcct := acct }) sc' a = .ok r →
+              d.watchOnly = false → r.wo = false → r.hasPriv = true := by
+            intro sc' a r hr hwo hrw
+            rw [hrow] at hr
+            by_cases hc : sc' = sc ∧ a = acct
+            · rw [if_pos hc] at hr
+              by_cases hi : a = IMPORTED
+              · simp [hi] at hr
+              · simp only [hi, if_false] at hr; cases hr; simp at hrw ⊢; exact hrw
+            · rw [if_neg hc] at hr; exact hw.dpriv hwo sc' a r hr hrw
+          refine ⟨⟨⟨?_, ?_, ?_, hg.coh.synced⟩, hg.hAddrs, hg.hLast, hg.wo, ?_, ?_⟩, ⟨?_, ?_, ?_⟩⟩
+          · intro sc' a ai h; obtain ⟨r, h1, h2⟩ := hg.coh.acct sc' a ai h; exact ⟨r, hkeep sc' a r h1, h2⟩
+          · intro sc' k id h
+            obtain ⟨h1, h2, h3⟩ := hg.coh.addr sc' k id h
+            exact ⟨addrAns_congr (by rw [hadr]) (fun a r hr => ⟨r, hkeep sc' a r hr⟩) h1, h2, h3⟩
+          · exact privOK_of hg.wo (fun hwo sc' a r hr hrw => hdp sc' a r hr hwo hrw)
+          · exact fun hwo sc' a r hr hrw => hdp sc' a r hr hwo hrw
+          · intro sc' k r h; rw [hadr] at h; exact hg.shape sc' k r h
+          · exact fun hwo sc' a r hr hrw => hdp sc' a r hr hwo hrw
+          · intro sc' k r h; rw [hadr] at h; exact hw.shape sc' k r h
+          · intro sc' a r h
+            rw [updScope_scopes] at h ⊢
+            by_cases hsc : sc' = sc
+            · subst hsc
+              simp only [if_true] at h ⊢
+              rw [aget_aset] at h
+              by_cases ha : a = acct
+              · left; omega
+              · simp only [ha, if_false] at h
+                rcases hw.accts sc' a r h with h5 | h5
+                · left; omega
+                · exact Or.inr h5
+            · simp only [hsc, if_false] at h ⊢; exact hw.accts sc' a r h
+
+theorem good_rename {d : Disk} {m : Mem} (hg : Good d m) (hw : DiskWF d) (sc acct : Nat) (name : String) :
+    Good (renameAccount d m sc acct name).1 (renameAccount d m sc acct name).2.1 ∧
+    DiskWF (renameAccount d m sc acct name).1 := by
+  unfold renameAccount
+  split
+  · exact ⟨hg, hw⟩
+  · rename_i hni
+    dsimp only
+    split
+    · exact ⟨hg, hw⟩
+    · split
+      · exact ⟨hg, hw⟩
+      · split
+        · exact ⟨hg, hw⟩
+        · rename_i row hrow0
+          have hrow := acctAns_setRow d sc acct { row with name := name }
+            (fun s => { s with accts := aset s.accts acct { row with name := name } }) (fun _ => rfl)
+          have hadr : ∀ sc', ((d.updScope sc fun s => { s with accts := aset s.accts acct { row with name := name } }).scopes sc').addrs
+              = (d.scopes sc').addrs := by intro sc'; rw [updScope_scopes]; split <;> simp_all
+          have hla : ∀ sc', ((d.updScope sc fun s => { s with accts := aset s.accts acct { row with name := name } }).scopes sc').lastAcct
+              = (d.scopes sc').lastAcct := by intro sc'; rw [updScope_scopes]; split <;> simp_all
+          have hold : acctAns d sc acct = .ok row := by unfold acctAns; simp [hrow0, hni]
+          -- every ok row stays ok (the renamed one with the new name)
+          have hkeep : ∀ sc' a r, acctAns d sc' a = .ok r → ∃ r',
+              acctAns (d.updScope sc fun s => { s with accts := aset s.accts acct { row with name := name } }) sc' a = .ok r' ∧
+              r'.nextExt = r.nextExt ∧ r'.nextInt = r.nextInt ∧ r'.wo = r.wo ∧ r'.hasPriv = r.hasPriv ∧
+              ((sc' = sc ∧ a = acct) → r'.name = name) ∧ (¬ (sc' = sc ∧ a = acct) → r' = r) := by
+            intro sc' a r hr
+            rw [hrow]
+            by_cases hc : sc' = sc ∧ a = acct
+            · obtain ⟨rfl, rfl⟩ := hc
+              rw [hold] at hr; cases hr
+              simp only [and_self, if_true, hni, if_false]
+              exact ⟨_, rfl, rfl, rfl, rfl, rfl, fun _ => rfl, fun h => (h (by simp)).elim⟩
+            · rw [if_neg hc]; exact ⟨r, hr, rfl, rfl, rfl, rfl, fun h => absurd h hc, fun _ => rfl⟩
+          have hdp : ∀ sc' a r,
+              acctAns (d.updScope sc fun s => { s with accts := aset s.accts acct { row with name := name } }) sc' a = .ok r →
+              d.watchOnly = false → r.wo = false → r.hasPriv = true := by
+            intro sc' a r hr hwo hrw
+            rw [hrow] at hr
+            by_cases hc : sc' = sc ∧ a = acct
+            · rw [if_pos hc] at hr
+              obtain ⟨rfl, rfl⟩ := hc
+              simp only [hni, if_false] at hr; cases hr
+              exact hw.dpriv hwo sc' a row hold hrw
+            · rw [if_neg hc] at hr; exact hw.dpriv hwo sc' a r hr hrw
+          have hwf : DiskWF (d.updScope sc fun s => { s with accts := aset s.accts acct { row with name := name } }) := by
+            refine ⟨fun hwo sc' a r hr hrw => hdp sc' a r hr hwo hrw, ?_, ?_⟩
+            · intro sc' k r h; rw [hadr] at h; exact hw.shape sc' k r h
+            · intro sc' a r h
+              rw [hla]
+              rw [updScope_scopes] at h
+              by_cases hsc : sc' = sc
+              · subst hsc
+                simp only [if_true] at h
+                rw [aget_aset] at h
+                by_cases ha : a = acct
+                · subst ha; exact hw.accts sc' a row hrow0
+                · simp only [ha, if_false] at h; exact hw.accts sc' a r h
+              · simp only [hsc, if_false] at h; exact hw.accts sc' a r h
+          -- memory
+          cases hc : acctInfoOf m sc acct with
+          | none =>
+            simp only
+            refine ⟨⟨⟨?_, ?_, ?_, hg.coh.synced⟩, hg.hAddrs, hg.hLast, hg.wo, hwf.dpriv, hwf.shape⟩, hwf⟩
+            · intro sc' a ai h
+              obtain ⟨r, h1, h2⟩ := hg.coh.acct sc' a ai h
+              obtain ⟨r', k1, k2, k3, _, _, _, k7⟩ := hkeep sc' a r h1
+              have hne : ¬ (sc' = sc ∧ a = acct) := by
+                intro ⟨e1, e2⟩; subst e1; subst e2
+                have : acctInfoOf m sc' a = some ai := h
+                rw [hc] at this; cases this
+              rw [k7 hne] at k1; exact ⟨r, k1, h2⟩
+            · intro sc' k id h
+              obtain ⟨h1, h2, h3⟩ := hg.coh.addr sc' k id h
+              exact ⟨addrAns_congr (by rw [hadr]) (fun a r hr => by
+                obtain ⟨r', k1, _⟩ := hkeep sc' a r hr; exact ⟨r', k1⟩) h1, h2, h3⟩
+            · exact privOK_of hg.wo hwf.dpriv
+          | some ai0 =>
+            simp only
+            have hai : ∀ sc' a ai, aget ((m.updScope sc fun s => { s with acctInfo := aset s.acctInfo acct { ai0 with name := name } }).scopes sc').acctInfo a = some ai →
+                (sc' = sc ∧ a = acct ∧ ai = { ai0 with name := name }) ∨
+                (¬ (sc' = sc ∧ a = acct) ∧ aget (m.scopes sc').acctInfo a = some ai) := by
+              intro sc' a ai h
+              simp only [Mem.updScope] at h
+              by_cases hsc : sc' = sc
+              · subst hsc
+                simp only [if_true] at h
+                rw [aget_aset] at h
+                by_cases ha : a = acct
+                · simp only [ha, if_true] at h; cases h; exact Or.inl ⟨rfl, ha, rfl⟩
+                · simp only [ha, if_false] at h; exact Or.inr ⟨fun hh => ha hh.2, h⟩
+              · simp only [hsc, if_false] at h; exact Or.inr ⟨fun hh => hsc hh.1, h⟩
+            have haddrs : ∀ sc', ((m.updScope sc fun s => { s with acctInfo := aset s.acctInfo acct { ai0 with name := name } }).scopes sc').addrs
+                = (m.scopes sc').addrs := by
+              intro sc'; simp only [Mem.updScope]; split <;> simp_all
+            refine ⟨⟨⟨?_, ?_, ?_, hg.coh.synced⟩, ?_, ?_, hg.wo, hwf.dpriv, hwf.shape⟩, hwf⟩
+            · intro sc' a ai h
+              rcases hai sc' a ai h with ⟨rfl, rfl, rfl⟩ | ⟨hne, h⟩
+              · obtain ⟨r, h1, h2⟩ := hg.coh.acct sc' a ai0 hc
+                obtain ⟨r', k1, k2, k3, _, _, k6, _⟩ := hkeep sc' a r h1
+                refine ⟨r', k1, ?_⟩
+                obtain ⟨_, i2, i3, i4, i5, i6, i7⟩ := h2
+                exact ⟨(k6 ⟨rfl, rfl⟩).symm, by rw [k2]; exact i2, by rw [k3]; exact i3, by rw [k2]; exact i4, i5,
+                  by rw [k3]; exact i6, i7⟩
+              · obtain ⟨r, h1, h2⟩ := hg.coh.acct sc' a ai h
+                obtain ⟨r', k1, _, _, _, _, _, k7⟩ := hkeep sc' a r h1
+                rw [k7 hne] at k1; exact ⟨r, k1, h2⟩
+            · intro sc' k id h
+              rw [haddrs] at h
+              obtain ⟨h1, h2, h3⟩ := hg.coh.addr sc' k id h
+              exact ⟨addrAns_congr (by rw [hadr]) (fun a r hr => by
+                obtain ⟨r', k1, _⟩ := hkeep sc' a r hr; exact ⟨r', k1⟩) h1, h2, h3⟩
+            · exact privOK_of hg.wo hwf.dpriv
+            · intro sc' k id h; rw [haddrs] at h; exact hg.hAddrs sc' k id h
+            · intro sc' a ai h
+              rcases hai sc' a ai h with ⟨rfl, rfl, rfl⟩ | ⟨_, h⟩
+              · exact hg.hLast sc' a ai0 hc
+              · exact hg.hLast sc' a ai h
+
 end AddrLock
